@@ -116,11 +116,15 @@ class EFLRItem:
         return v
 
     def _compute_copy_number(self) -> int:
-        """Compute copy number of this ELFRItem, i.e. how many other objects of the same type and name there are."""
+        """Compute copy number of this ELFRItem: the first one not taken by another object of the same type and name.
+
+        As long as no object is renamed, this is the number of objects of the same type and name created so far.
+        (If one is renamed, its old name and copy number become free, while the others keep theirs.)
+        """
 
         # (the item itself is not registered with the parent yet at this point)
-        items_with_the_same_name = filter(lambda o: o.name == self.name and o is not self, self.parent.get_all_eflr_items())
-        return len(list(items_with_the_same_name))
+        taken = {o.copy_number for o in self.parent.get_all_eflr_items() if o.name == self.name and o is not self}
+        return next(n for n in range(len(taken) + 1) if n not in taken)
 
     @classmethod
     def _check_parent(cls, parent: "EFLRSet") -> None:
